@@ -9,14 +9,27 @@ H1_REAL = ["pkg/gossip: clusterState, codec (encode/decodeDigest/Delta), packetL
 PROPS = {
     "SMOKE": dict(rule="kernel self-test workload; no oracle", batch=1, quick_budget=20, quick_runs=16,
                   real=["server.Server x3", "client.Upstream listeners"], stub=STUB_COMMON),
-    "C02": dict(rule="driven gossip histories (PRNG-generated scripts of local writes, compactions, rounds, per-datagram deliver/drop/duplicate/late delivery, joins, leaves, late joiners; 2-6 nodes; max packet 150-1400). distinct = distinct (script hash, schedule hash, event-log hash); non-trivial = the run observed a partial (truncated/relayed) view, a truncated delta or a compaction",
+    "C02": dict(claimed=True, engine="h1-gossipsim", level_text="seeded search over gossip histories: after every applied packet and every local write the real nodes' views are compared, rule by rule (authentic, bounded, prefix, hidden, monotone, own), against the write log derived from each owner's own state; thousands of distinct delivery orders, truncation points, losses, duplicates and relay paths per minute",
+                rule="driven gossip histories (PRNG-generated scripts of local writes, compactions, rounds, per-datagram deliver/drop/duplicate/late delivery, joins, leaves, late joiners; 2-6 nodes; max packet 150-1400). distinct = distinct (script hash, schedule hash, event-log hash); non-trivial = the run observed a partial (truncated/relayed) view, a truncated delta or a compaction",
                 batch=40, quick_budget=40, thorough_budget=900, real=H1_REAL, stub=STUB_COMMON),
-    "C03": dict(rule="as C02, followed by the settle phase: updates and faults stop, fair sweeps over all ordered pairs with reliable delivery must converge within (outstanding entries + unknown pairs + n^2 + 2) sweeps and every non-converged sweep must transfer something; plus the oversize-entry family. non-trivial as C02",
+    "C03": dict(claimed=True, engine="h1-gossipsim", level_text='seeded search: from arbitrary divergent states reached under loss, fair exchanges with reliable delivery must converge to exact equality of views within a stated sweep bound, and every non-converged sweep must make progress; oversized-entry family separates the recorded finding F1',
+                rule="as C02, followed by the settle phase: updates and faults stop, fair sweeps over all ordered pairs with reliable delivery must converge within (outstanding entries + unknown pairs + n^2 + 2) sweeps and every non-converged sweep must transfer something; plus the oversize-entry family. non-trivial as C02",
                 batch=40, quick_budget=40, thorough_budget=900, real=H1_REAL, stub=STUB_COMMON),
-    "C13": dict(rule="every datagram emitted by real code in driven histories is checked (size, whole msgpack values by an independent walker, version order, prefix of the intended delta, maximality); tiny packet sizes favoured. non-trivial as C02",
+    "C13": dict(claimed=True, engine="h1-gossipsim", level_text='seeded search: every datagram real code emits is checked at the network seam for size, whole-value framing (independent msgpack walker), per-node version order, prefix-of-intent and maximality across packet sizes from a couple of entries to the default; hostile-input family feeds mutated/truncated/forged datagrams and streams',
+                rule="every datagram emitted by real code in driven histories is checked (size, whole msgpack values by an independent walker, version order, prefix of the intended delta, maximality); tiny packet sizes favoured. non-trivial as C02",
                 batch=40, quick_budget=40, thorough_budget=900, real=H1_REAL, stub=STUB_COMMON),
-    "C14": dict(rule="driven histories with a recording Watcher folded into a shadow view compared with Nodes()/Node(id) after every step; compaction-heavy with small packets. non-trivial as C02",
+    "C14": dict(claimed=True, engine="h1-gossipsim", level_text="seeded search: a recording Watcher is folded into a shadow view and compared with the node's visible view after every step of histories rich in compaction, truncation and membership changes",
+                rule="driven histories with a recording Watcher folded into a shadow view compared with Nodes()/Node(id) after every step; compaction-heavy with small packets. non-trivial as C02",
                 batch=40, quick_budget=40, thorough_budget=900, real=H1_REAL, stub=STUB_COMMON),
-    "C17": dict(rule="driven histories dominated by local upsert/delete/compact/leave (empty values, re-creation of deleted keys, repeated compaction, compaction after leave) checked against a last-write-wins reference map after every local write, then convergence of observers. non-trivial as C02",
+    "C17": dict(claimed=True, engine="h1-gossipsim", level_text='seeded search over local write histories against a last-write-wins reference map (version freshness, no-op writes, compaction preserving live keys and order), followed by convergence of observers',
+                rule="driven histories dominated by local upsert/delete/compact/leave (empty values, re-creation of deleted keys, repeated compaction, compaction after leave) checked against a last-write-wins reference map after every local write, then convergence of observers. non-trivial as C02",
                 batch=40, quick_budget=40, thorough_budget=900, real=H1_REAL, stub=STUB_COMMON),
+    "C11": dict(claimed=True, engine="h1-gossipsim", level_text="seeded search over membership histories: leave/crash/partition/heal/expiry/late joiners in every order, in the driven mode (every packet's fate scripted; re-learning attributed to the packet that taught it) and in the free-running mode (real tickers, detector and expiry under loss, duplication, reordering); left-sticky, left-no-relearn, left-expire, unreachable, recover, expire-stays and local rules",
+                rule="driven family: scripts of rounds, per-datagram fates, leaves, crashes, clock advances, liveness evaluations and expiry sweeps; free-running family: 3-6 real nodes with real tickers at 20-100 ms, timed faults, then faults stop. non-trivial = the run contained a leave or a crash or observed a partial view",
+                batch=8, quick_budget=45, thorough_budget=900, real=H1_REAL, stub=STUB_COMMON),
+    "C12": dict(claimed=True, engine="h1-gossipsim", level_text="seeded search: the real accrual detector is fed by peer goroutines paced by the simulated clock (jitter, bursts, silences, removals, windows 1-64) and compared at arbitrary query instants with an exact reference over the recorded arrival instants (exact, accuracy, completeness, window rules); a free-running family checks the production wiring (report on every delta, threshold 20, window 50) against recorded delivery instants",
+                rule="direct family: scripts of concurrent arrival bursts, silences, queries, removals, twin-history comparisons; free family as C11. non-trivial = the sample window wrapped at least once",
+                batch=12, quick_budget=40, thorough_budget=900, real=H1_REAL, stub=STUB_COMMON),
 }
+
+NOT_APPLICABLE = {}
